@@ -448,6 +448,19 @@ class AnchorTaps(object):
                 tgt = getattr(tgt, 'pyfunc', tgt)      # np.vectorize objects
                 if isinstance(tgt, types.FunctionType) and tgt.__module__ == mod.__name__:
                     found[short + '.' + tgt.__code__.co_qualname] = tgt.__code__
+                    # decorated helpers (utils.array_support ...): the function proper sits in the closure of the decorator's inner function
+                    stack, seen = [tgt], set()
+                    while stack:
+                        f = stack.pop()
+                        for cell in (f.__closure__ or ()):
+                            try:
+                                inner = cell.cell_contents
+                            except ValueError:
+                                continue
+                            if isinstance(inner, types.FunctionType) and inner.__module__ == mod.__name__ and id(inner) not in seen:
+                                seen.add(id(inner))
+                                found.setdefault(short + '.' + inner.__code__.co_qualname, inner.__code__)
+                                stack.append(inner)
                     sub = {}
                     self._walk_code(tgt.__code__, '', sub)
                     for q, c in sub.items():
@@ -455,6 +468,7 @@ class AnchorTaps(object):
                 elif isinstance(obj, type) and obj.__module__ == mod.__name__:
                     for mn, m in list(obj.__dict__.items()):
                         m = getattr(m, '__fxpverif_wrapped__', m)
+                        m = getattr(m, '__wrapped__', m)
                         if isinstance(m, types.FunctionType):
                             found[short + '.' + m.__code__.co_qualname] = m.__code__
         return found
